@@ -128,16 +128,19 @@ def Schema.followsB (S : Schema) (a b : TypeId) : Bool :=
 mutual
 /-- in every fragment of the tree: each node is followed by a node that fits wherever the first one does
     (`followsB`: the take loop of `place_nodes`, once it has taken a node, takes its siblings too, so it never
-    stops short of the end of a fragment and `open_start` never goes stale); and a fragment that ends in a leaf or
-    text node consists of such nodes only (`open_more` never raises `open_end` past a leaf) -/
+    stops short of the end of a fragment and `open_start` never goes stale), and no leaf or text node comes
+    directly behind a non-leaf node (so a fragment that ends in a leaf consists of leaves only: `open_more` never
+    raises `open_end` past a leaf; and the one node the take loop can stop at — the sibling of an empty start-open
+    node it has skipped — can stand for an open node) -/
 def Schema.stableNode (S : Schema) : Node → Bool
   | .elem _ _ _ kids => S.stableKids kids
-  | _ => true
+  | .text s _ => !s.isEmpty       -- `TextNode.__init__` refuses the empty string
+  | .leaf .. => true
 def Schema.stableKids (S : Schema) : List Node → Bool
   | [] => true
   | [n] => S.stableNode n
   | a :: b :: rest =>
-    S.followsB (S.tyOf a) (S.tyOf b) && (endsInElem (b :: rest) || a.isLeaf) && S.stableNode a && S.stableKids (b :: rest)
+    S.followsB (S.tyOf a) (S.tyOf b) && (a.isLeaf || !b.isLeaf) && S.stableNode a && S.stableKids (b :: rest)
 end
 
 /-- **the static guard under which the unplaced slice stays well-formed** -/
